@@ -100,8 +100,37 @@ def histories(draw):
     }
 
 
+@st.composite
+def improve_reload_histories(draw):
+    """Histories shaped to reach the interesting corner: store, several
+    overwrite='improved' searches of (mostly) the same contraction, a reload
+    by a new object, then queries again."""
+    spec = draw(histories())
+    spec["directory"] = draw(st.sampled_from([True, True, False]))
+
+    def op(name, **kw):
+        d = {
+            "op": name, "variant": "same", "vk": 0,
+            "objmode": draw(st.sampled_from(["shared", "fresh"])), "obj": 0,
+            "overwrite": False, "cache_only": False, "uft_overwrite": False,
+            "seed": draw(st.integers(0, 99)),
+        }
+        d.update(kw)
+        return d
+
+    k = draw(st.integers(1, 5))
+    var = draw(st.sampled_from(["same", "same", "perm_in", "perm_out"]))
+    ops = [op("search")]
+    ops += [op("search", overwrite="improved", variant=draw(st.sampled_from(["same", var]))) for _ in range(k)]
+    ops.append(op("new_object"))
+    ops.append(op(draw(st.sampled_from(["search", "search", "call"])), variant=var, cache_only=draw(st.booleans())))
+    ops.append(op("search", overwrite=draw(st.sampled_from([False, "improved"]))))
+    spec["ops"] = ops
+    return spec
+
+
 def strategy(tier, sub=None):
-    return histories()
+    return st.integers(0, 3).flatmap(lambda i: improve_reload_histories() if i == 0 else histories())
 
 
 def budget(tier, sub=None):
@@ -173,6 +202,10 @@ def run_case(spec, sub=None):
 
     _register()
     warnings.filterwarnings("ignore")
+    # the sub-optimizers draw from the global generator: pin it from the spec
+    import random
+
+    random.seed(sum(op.get("seed", 0) * (i + 1) for i, op in enumerate(spec["ops"])) + len(spec["ops"]))
     net = spec["net"]
     viol = []
     scratch = os.environ.get("VERIF_SCRATCH")
@@ -212,6 +245,7 @@ def run_case(spec, sub=None):
         objs = {}
         # model: fingerprint -> list of (path, sliced, score) ever stored
         model = {}
+        latest = {}  # fingerprint -> (path, sliced) that a store most recently wrote
         best_score = {}  # fingerprint -> lowest score read back under 'improved'
 
         def stored_score_on_disk(q):
@@ -263,6 +297,18 @@ def run_case(spec, sub=None):
                     break
                 ans = (tuple(map(tuple, tree.get_path())), tuple(tree.sliced_inds), tree.get_score())
                 model.setdefault(fp, []).append(ans)
+                if spec["hash_method"] == "a":
+                    mode = op["uft_overwrite"]
+                    if fp not in latest or mode is True:
+                        latest[fp] = ans
+                    elif mode == "improved":
+                        old_ans = latest[fp]
+                        if old_ans is None or old_ans[2] is None:
+                            latest[fp] = None  # cannot tell which one is kept
+                        elif ans[2] < old_ans[2] - 1e-12:
+                            latest[fp] = ans
+                        elif abs(ans[2] - old_ans[2]) <= 1e-12:
+                            latest[fp] = None
                 after = stored_score_on_disk(q)
                 if (
                     spec["hash_method"] == "a" and op["uft_overwrite"] == "improved"
@@ -331,8 +377,19 @@ def run_case(spec, sub=None):
                     model.setdefault(fp, []).append(ans)
                 else:
                     model.setdefault(fp, []).append(None)
+                # what the search returned is what the cache now holds (under
+                # 'improved' the better of old and new is both kept and returned)
+                latest[fp] = ans if spec["kind"] == "hyper" or ans is None else (ans[0], ans[1], None)
             else:
                 hits += 1
+                if spec["hash_method"] == "a" and ans is not None and latest.get(fp) is not None:
+                    lt = latest[fp]
+                    if lt[0] != ans[0] or tuple(lt[1]) != tuple(ans[1]):
+                        viol.append(
+                            f"{what}: cache hit returned order/sliced {ans[:2]} but the answer stored last "
+                            f"for this contraction is {lt[:2]}"
+                        )
+                        break
                 if spec["hash_method"] == "a":
                     if not known:
                         viol.append(f"{what}: served from the cache without search, but no equal query was ever stored")
